@@ -161,6 +161,7 @@ fn strat(t: Tier) -> proptest::strategy::BoxedStrategy<ValidCase> {
 
 pub fn def() -> PropertyDef {
     PropertyDef {
+        fuzz_targets: &[],
         id: "C09",
         level: "exploration",
         rule: "A/V histories with independent start offsets (first video PTS 0 / random, first audio = first video + {0, 1 tick .. minutes}), \
